@@ -378,7 +378,7 @@ type didSnap struct {
 	// refers to). The resolver serves the stored document of that version; FindServices and every further operation (which builds the next version
 	// and what gets published from these rows) serve THIS view. "Shows its previous version" is demanded of both.
 	RowsErr     string
-	RowVMs      []string // id usage-flags hash(data) per verification-method row of the latest version
+	RowVMs      []string // id usage-flags hash(data) key-store-holds-the-key per verification-method row of the latest version
 	RowServices []string // fragment:type hash(data) per service row of the latest version
 	// did:nuts only: what the network side (didstore fed by the ambassador) resolves
 	NetErr      string
@@ -433,6 +433,10 @@ func docParts(doc *did.Document) (vms, services []string) {
 	return
 }
 
+// noDependentView (VERIF_C13_NO_DEPENDENT_VIEW=1) is a debugging aid for validating the monitor: snapshots are taken without the view through the dependent
+// rows, so that what the further operations alone detect can be seen. Never set in a regular run.
+var noDependentView = os.Getenv("VERIF_C13_NO_DEPENDENT_VIEW") == "1"
+
 func (e *env) snapSubject(name string) subjSnap {
 	var out subjSnap
 	out.Exists, _ = e.mgr.Exists(ctx(), name)
@@ -468,11 +472,20 @@ func (e *env) snapSubject(name string) subjSnap {
 				types[s.Type] = true
 			}
 		}
-		if latest, err := didsubject.NewDIDDocumentManager(e.db).Latest(id, nil); err != nil {
+		if noDependentView {
+			// debugging aid, see below
+		} else if latest, err := didsubject.NewDIDDocumentManager(e.db).Latest(id, nil); err != nil {
 			ds.RowsErr = err.Error()
 		} else {
 			for _, vm := range latest.VerificationMethods {
-				ds.RowVMs = append(ds.RowVMs, fmt.Sprintf("%s usage=%d %s", vm.ID, vm.KeyTypes, sum(vm.Data)))
+				// ... and whether the key store still holds the private key the row stands for (the next did:nuts publish is signed with one of them)
+				key := "present"
+				if ok, err := e.ks.Exists(ctx(), vm.ID); err != nil {
+					key = "error: " + err.Error()
+				} else if !ok {
+					key = "absent"
+				}
+				ds.RowVMs = append(ds.RowVMs, fmt.Sprintf("%s usage=%d %s key=%s", vm.ID, vm.KeyTypes, sum(vm.Data), key))
 			}
 			for _, s := range latest.Services {
 				var svc did.Service
@@ -506,6 +519,9 @@ func (e *env) snapSubject(name string) subjSnap {
 		out.DIDs = append(out.DIDs, ds)
 	}
 	// FindServices, for every service type any view of any DID of the subject knows
+	if noDependentView {
+		types = nil
+	}
 	for typ := range types {
 		typ := typ
 		found, err := e.mgr.FindServices(ctx(), name, &typ)
@@ -1941,7 +1957,7 @@ func (p *pass) compare(o op, pl plan, phase, class string, tookEffect bool, pre,
 			}
 			// ... for every service type of the subject, not only the one the operation is about: the services FindServices returns are those of the
 			// documents the DIDs of the subject show now (which were compared with the reference above)
-			if !p.broken {
+			if !p.broken && !noDependentView {
 				wantFound := map[string][]string{}
 				for typ := range a.Found {
 					wantFound[typ] = []string{}
@@ -2261,7 +2277,7 @@ func (p *pass) run() {
 			p.settle(o)
 			p.attribute(o, pre, post)
 		}
-		if !tookEffect && !pl.early && !pl.optional && p.live[o.Subject] && p.rnd.Intn(3) > 0 {
+		if !tookEffect && !pl.early && !pl.optional && p.live[o.Subject] && p.rnd.Intn(2) == 0 {
 			// a further operation (another one than the one that failed) on the same subject: it builds on the version the subject shows again, so what
 			// it writes and publishes must be that previous version plus this operation - not a version from which parts went missing with the abandoned one
 			var ok2 bool
@@ -2829,7 +2845,7 @@ func TestCheck(t *testing.T) {
 		"reference computed from the operation and the state before it, and a retry when the operation did not take effect. The snapshot of a DID holds, besides the stored document of every " +
 		"version and what the resolver and the network side show, the latest version as the manager reads it (DIDDocumentManager.Latest: its verification-method and service rows, which " +
 		"FindServices serves and from which every further operation builds and publishes the next version) and FindServices for every service type of the subject: after an operation that " +
-		"did not take effect all of it is what it was before. In 2 of 3 such cases a further operation of another kind (add key / add a service of a new type / delete an unknown service = write " +
+		"did not take effect all of it is what it was before. In 1 of 2 such cases a further operation of another kind (add key / add a service of a new type / delete an unknown service = write " +
 		"every document again) runs on the same subject before the retry and is judged like any successful operation: one more version per DID = previous version + that operation, network and FindServices agree. " +
 		"A case is non-trivial when the fault of its site actually " +
 		"fired during the operation (or no fault applies); distinct by (operation kind, configuration, methods enabled, fault site, outcome, subject existed before). " +
